@@ -256,7 +256,18 @@ def _icls(n):
 
 
 def argclass(t):
-    """Coarse label of the operand leaves of a flat case."""
+    """Coarse label of the operand leaves of a case."""
+    op = t.get("op")
+    lv = [z_of(a["v"]) if a["k"] == "leaf" and a["t"] in INT_TYPES else None for a in t["args"]]
+    if all(v is not None for v in lv):
+        if op == "SIntPlusMod":
+            return "sum>=2^31" if lv[0] + lv[1] >= (1 << 31) else "sum<2^31"
+        if op == "SIntTimesMod":
+            return "product>=2^31" if lv[0] * lv[1] >= (1 << 31) else "product<2^31"
+        if op == "SIntMinusMod":
+            return "a<b" if lv[0] < lv[1] else "a>=b"
+        if op in ("ByteToSInt", "SIntToByte"):
+            return "128..255" if lv[0] >= 128 else "0..127"
     out = []
     for a in t["args"]:
         if a["k"] != "leaf":
